@@ -73,7 +73,7 @@ macro_rules! avc_h {
         });
     };
 }
-//@ prop=C07 tier=quick cost=200 fns="codec::h264::extract_avc_config,AnnexBNalIter::next" bound="all byte strings of length 8" unwind=11 timeout=1200 mem=20
+//@ prop=C07 tier=quick cost=200 fns="codec::h264::extract_avc_config,AnnexBNalIter::next" bound="all byte strings of length 8" unwind=11 timeout=1200 mem=12
 avc_h!(c07_avc_extract_len8, 8, 11);
 //@ prop=C07 tier=thorough cost=600 fns="codec::h264::extract_avc_config,AnnexBNalIter::next" bound="all byte strings of length 9" unwind=12 timeout=3000 mem=30
 avc_h!(c07_avc_extract_len9, 9, 12);
@@ -113,7 +113,7 @@ macro_rules! hevc_h {
         });
     };
 }
-//@ prop=C07 tier=quick cost=200 fns="codec::h265::extract_hevc_config,hevc_nal_type" bound="all byte strings of length 8 (too short to hold all three sets: rejection side)" unwind=11 timeout=1200 mem=20
+//@ prop=C07 tier=quick cost=200 fns="codec::h265::extract_hevc_config,hevc_nal_type" bound="all byte strings of length 8 (too short to hold all three sets: rejection side)" unwind=11 timeout=1200 mem=12
 hevc_h!(c07_hevc_extract_len8, 8, 11);
 //@ prop=C07 tier=thorough cost=900 mem=30 fns="codec::h265::extract_hevc_config" bound="layout VPS, SPS, SPS', PPS, IDR with 3-/4-byte codes, symbolic second header bytes >= 2" unwind=40 timeout=900
 h!(c07_hevc_first_sets_win, 40, {
@@ -187,17 +187,17 @@ macro_rules! av1_h {
         h!($name, 34, { av1_body::<$p, $t>() });
     };
 }
-//@ prop=C07,C12 tier=quick cost=300 fns="codec::av1::extract_av1_config,parse_sequence_header,parse_color_config,BitReader,ObuIter::next,parse_obu_header,read_leb128" bound="all 5-byte sequence-header payloads (operating_points_cnt <= 2, seq_profile <= 2)" unwind=34 unwindset="muxide::codec::av1::parse_sequence_header.0:3,muxide::codec::av1::skip_uvlc.0:10" timeout=1400 mem=20 covers_optional="color_description|profile 2, 12|ordinary header"
+//@ prop=C07,C12 tier_C12=quick tier=thorough cost=300 fns="codec::av1::extract_av1_config,parse_sequence_header,parse_color_config,BitReader,ObuIter::next,parse_obu_header,read_leb128" bound="all 5-byte sequence-header payloads (operating_points_cnt <= 2, seq_profile <= 2)" unwind=34 unwindset="muxide::codec::av1::parse_sequence_header.0:3,muxide::codec::av1::skip_uvlc.0:10" timeout=1400 mem=12 covers_optional="color_description|profile 2, 12|ordinary header"
 av1_h!(c07_av1_payload5, 5, 7);
-//@ prop=C07,C12 tier=quick cost=400 fns="codec::av1::extract_av1_config,parse_sequence_header,parse_color_config,BitReader" bound="all 7-byte sequence-header payloads (operating_points_cnt <= 2, seq_profile <= 2)" unwind=34 unwindset="muxide::codec::av1::parse_sequence_header.0:3,muxide::codec::av1::skip_uvlc.0:10" timeout=1400 mem=20 covers_optional="12 bit|ordinary header"
+//@ prop=C07,C12 tier_C12=thorough tier=thorough cost=400 fns="codec::av1::extract_av1_config,parse_sequence_header,parse_color_config,BitReader" bound="all 7-byte sequence-header payloads (operating_points_cnt <= 2, seq_profile <= 2)" unwind=34 unwindset="muxide::codec::av1::parse_sequence_header.0:3,muxide::codec::av1::skip_uvlc.0:10" timeout=1400 mem=12 covers_optional="12 bit|ordinary header"
 av1_h!(c07_av1_payload7, 7, 9);
-//@ prop=C07,C12 tier=quick tier_C12=thorough cost=900 fns="codec::av1::extract_av1_config,parse_sequence_header,parse_color_config,BitReader" bound="all 10-byte sequence-header payloads" unwind=34 unwindset="muxide::codec::av1::parse_sequence_header.0:3,muxide::codec::av1::skip_uvlc.0:10" timeout=3000 mem=30
+//@ prop=C07,C12 tier=quick tier_C12=thorough cost=900 fns="codec::av1::extract_av1_config,parse_sequence_header,parse_color_config,BitReader" bound="all 10-byte sequence-header payloads" unwind=34 unwindset="muxide::codec::av1::parse_sequence_header.0:3,muxide::codec::av1::skip_uvlc.0:10" timeout=3000 mem=12
 av1_h!(c07_av1_payload10, 10, 12);
 //@ prop=C07,C12 tier=thorough cost=1500 fns="codec::av1::extract_av1_config,parse_sequence_header,parse_color_config,skip_uvlc,BitReader" bound="all 13-byte sequence-header payloads (timing_info reachable)" unwind=34 unwindset="muxide::codec::av1::parse_sequence_header.0:3,muxide::codec::av1::skip_uvlc.0:10" timeout=3000 mem=30
 av1_h!(c07_av1_payload13, 13, 15);
 
 // witness for the monochrome finding
-//@ prop=C07 tier=quick cost=300 fns="codec::av1::extract_av1_config,parse_color_config" bound="all 5-byte payloads that the reference parses as monochrome" unwind=34 unwindset="muxide::codec::av1::parse_sequence_header.0:3,muxide::codec::av1::skip_uvlc.0:10" timeout=1400 mem=20 expect=fail kf=KF-C07-av1-monochrome-csp
+//@ prop=C07 tier=thorough cost=300 fns="codec::av1::extract_av1_config,parse_color_config" bound="all 5-byte payloads that the reference parses as monochrome" unwind=34 unwindset="muxide::codec::av1::parse_sequence_header.0:3,muxide::codec::av1::skip_uvlc.0:10" timeout=1400 mem=12 expect=fail kf=KF-C07-av1-monochrome-csp
 h!(c07_w_av1_monochrome, 34, {
     let payload: [u8; 5] = kani::any();
     let refr = ref_sequence_header::<5>(&payload);
